@@ -22,6 +22,8 @@ def main(n=120, seed=7, W=32):
             x = ext(v) * z3.BitVecVal(random.choice([K, 125, 1, -K % 2 ** W, 3]), W)
             t = t + x if random.random() < 0.7 else t - x
         if random.random() < 0.4: t = z3.If(vs[0] > 3, t, t + z3.BitVecVal(K, W))
+        if random.random() < 0.25:      # exact division of a multiple of K (duration_cast from a finer unit)
+            v = random.choice(vs); t = t + (ext(v) * z3.BitVecVal(K, W) + z3.BitVecVal(3 * K, W)) / z3.BitVecVal(K, W)
         return t
     bad = done = 0
     for _ in range(n):
